@@ -75,6 +75,36 @@ func tryRebind(p *Prog, fn *ssa.Function, x *Exec, solver *Solver, alias map[str
 		}
 	}
 	var found *Exec
+	if !needUnique {
+		// first try the proof without this invariant clause: an invariant is only a witness, and a clause about a local
+		// that was removed (not renamed) is usually no longer needed
+		drop := map[int]bool{line: true}
+		for k := range x.DropInv {
+			drop[k] = true
+		}
+		x2 := NewExec(p, fn)
+		x2.Alias = alias
+		x2.DropInv = drop
+		x2.Run()
+		if len(x2.Unsupported) == 1 && strings.Contains(x2.Unsupported[0], "unknown identifier") && len(drop) < 4 {
+			if r := tryRebind(p, fn, x2, solver, alias, depth); r != nil {
+				return r
+			}
+		} else if len(x2.Unsupported) == 0 {
+			solver.SolveAll(x2.Obls, 16)
+			ok := true
+			for _, a := range aggregate(x2.Obls) {
+				if !a.ok {
+					ok = false
+					break
+				}
+			}
+			if ok {
+				x2.Assumptions[fmt.Sprintf("note: %d loop invariant clause(s) of %s name a local that no longer exists and were left out; every obligation of the function is discharged without them", len(drop), x2.short)] = true
+				return x2
+			}
+		}
+	}
 	mentioned := map[string]bool{}
 	var srcs []string
 	for _, cs := range [][]Clause{x.FC.Requires, x.FC.Ensures, x.FC.Panics, x.FC.Lemmas} {
@@ -130,6 +160,7 @@ func tryRebind(p *Prog, fn *ssa.Function, x *Exec, solver *Solver, alias map[str
 		}
 		x2 := NewExec(p, fn)
 		x2.Alias = al
+		x2.DropInv = x.DropInv
 		x2.Run()
 		if len(x2.Unsupported) > 0 {
 			if r := tryRebind(p, fn, x2, solver, al, depth+1); r != nil {
